@@ -1242,3 +1242,6 @@ func loopCarried(s *ssa.BasicBlock, phi *ssa.Phi, entry ssa.Value) ssa.Value {
 	}
 	return entry
 }
+
+// IfCondAtoms returns the atoms deciding one If condition (a boolean phi is expanded into the values merged in it).
+func IfCondAtoms(cond ssa.Value) []ssa.Value { return expandBoolPhi(cond, 0) }
